@@ -3,15 +3,14 @@ CONSTANTS
   MaxLines = 4
   Modes = {"independent", "cumulative"}
   MaxNext = 5
-  MaxSep = 2
+  MaxSep = 1
   MinMarkers = 0
   LineKinds = {"c", "m", "f"}
-  Flags = {}
+  Flags = {"stale_offset"}
 INVARIANT Lossless
 INVARIANT KthChunk
 INVARIANT PastEndIsFeedback
 INVARIANT WholeFileLines
 INVARIANT Restored
 INVARIANT WholeFileNoOffset
-CONSTRAINT Export
 CHECK_DEADLOCK FALSE
